@@ -28,7 +28,7 @@ def schedules(H, rng, n_random):
         out.append(('sparse', [(100.0, 'KA'), (300.0, 'UPD'), (500.0, 'KA')]))
         out.append(('burst', [(0.0, 'KA')] * 5 + [(250.0, 'UPD')]))
         for i in range(n_random):
-            out.append(('rand%d' % i, [(rng.choice([0.0, 1.0, 30.0, 239.0, 240.0, 241.0, 600.0]), rng.choice(['KA', 'UPD', 'UPDBAD', 'RR']))
+            out.append(('rand%d' % i, [(rng.choice([0.0, 1.0, 30.0, 239.0, 240.0, 241.0, 600.0]), rng.choice(['KA', 'UPD', 'UPDBAD', 'UPDUNK', 'RR']))
                                        for _ in range(rng.randint(1, 12))]))
         return out
     e = 0.001
@@ -38,7 +38,8 @@ def schedules(H, rng, n_random):
             continue
         out.append((nm + '-KA', [(g, 'KA')] * 3))
         out.append((nm + '-UPD', [(g, 'UPD')] * 3))
-        out.append((nm + '-alt', [(g, 'KA'), (g, 'UPD'), (g, 'UPDBAD'), (g, 'KA')]))
+        out.append((nm + '-alt', [(g, 'KA'), (g, 'UPD'), (g, 'UPDBAD'), (g, 'UPDUNK'), (g, 'KA')]))
+        out.append((nm + '-UPDUNK', [(g, 'UPDUNK')] * 3))
     out.append(('burst', [(0.0, 'KA')] * 4 + [(0.0, 'UPD')] * 4 + [(H - e, 'KA')]))
     out.append(('long-run', [(H / 2.0, 'KA' if i % 2 else 'UPD') for i in range(200)]))
     out.append(('rr-only', [(H / 2.0, 'RR')] * 5))
@@ -48,7 +49,7 @@ def schedules(H, rng, n_random):
     out.append(('rest-sends-mixed', [(H / 5.0, ('REST', 'RESTRR', 'RESTBIN', 'KA')[i % 4]) for i in range(16)]))
     gaps = [0.0, e, H / 3.0, H / 2.0, H - 1.0, H - e, float(H), H + e, H + 1.0, 2.0 * H]
     for i in range(n_random):
-        out.append(('rand%d' % i, [(max(0.0, rng.choice(gaps)), rng.choice(['KA', 'KA', 'UPD', 'UPDBAD', 'RR', 'REST', 'RESTRR', 'RESTBIN']))
+        out.append(('rand%d' % i, [(max(0.0, rng.choice(gaps)), rng.choice(['KA', 'KA', 'UPD', 'UPDBAD', 'UPDUNK', 'RR', 'REST', 'RESTRR', 'RESTBIN']))
                                    for _ in range(rng.randint(1, 10))]))
     return out
 
@@ -113,7 +114,7 @@ def run_case(cfg_hold, prop_hold, sched, order, phase='established', ka_delay=0.
             m_, p_, b_ = S.REST_SENDS[dict(REST='R_UPD', RESTRR='R_RR', RESTBIN='R_BIN')[kind]]
             w.rest(m_, p_, json_body=b_)
             continue
-        data = dict(KA=KEEPALIVE, UPD=S.UPD_EMPTY, UPDBAD=UPD_BAD, RR=S.MSGS['RR'][0])[kind]
+        data = dict(KA=KEEPALIVE, UPD=S.UPD_EMPTY, UPDBAD=UPD_BAD, UPDUNK=S.UPD_UNKFAM, RR=S.MSGS['RR'][0])[kind]
         w.deliver(data, tr)
         arrivals += 1
         if H:
